@@ -1,11 +1,164 @@
 (* C01 — osu!mania .osu read/write.  Property theorems only: each is closed by [exact] from
-   Proofs/OsuProofs.v, or is a finite table obligation re-checked by computation against
-   Generated/Tables.v (regenerated from the live code on every run). *)
+   Proofs/Osu{Proofs,Read,Write,Whole}.v, or is a finite table obligation re-checked by computation against
+   Generated/Tables.v (regenerated from the live code on every run).
+   WHOLE-FILE theorems first (C01_osu_...), then the line-level theorems they are built from. *)
 From Coq Require Import String Ascii.
 From Coq Require Import ZArith QArith Qround Qabs List Bool.
 From RV Require Import Base.PyNum Base.Text Formats.Osu Formats.OsuSpec Generated.Tables Proofs.OsuProofs.
+From RV Require Import Proofs.OsuRead Proofs.OsuWrite Proofs.OsuWhole.
 Import ListNotations.
 Open Scope Z_scope.
+
+(* ======================================================================================================
+   WHOLE FILES.  Domains are the boolean predicates the correspondence runner evaluates as wf:
+   read_domain text = wf_read_text text && strict_read_text text;  write_domain chart ut ua.
+   The float printers (repr, ':g', str) are oracles: universally quantified functions with their assumed
+   behaviour as explicit hypotheses (what they print reads back as the value printed, on the numbers
+   declared printable); the *_dec6 theorems are the instance "fixed point with 6 decimals", no hypothesis left.
+   ====================================================================================================== *)
+(* read_denotes: on every text of the read dialect with the strict layout the reader returns EXACTLY the
+   chart the format's reference semantics denotes (all sections: the 30 attributes incl. values with colons,
+   background, sample events, tempo points / SVs with code -> value, hits / holds with x -> column for the
+   file's key count and end time); absent attributes keep the dataclass defaults *)
+Theorem C01_osu_read_denotes : forall lines,
+  wf_read_text lines = true -> strict_read_text lines = true ->
+  exists d, osu_denote lines = Some d /\ osu_read lines = Some (realize d).
+Proof. exact osu_read_denotes. Qed.
+(* in the form the runner evaluates on the implementation's output *)
+Theorem C01_osu_read_denotes_bool : forall tol lines, (0 <= tol)%Q -> read_domain lines = true ->
+  match osu_denote lines, osu_read lines with
+  | Some d, Some c => denotes tol d c = true
+  | _, _ => False
+  end.
+Proof. exact osu_read_denotes_bool. Qed.
+(* every clause of strict_read_text is necessary: texts of the read dialect on which the reader does NOT
+   return the denoted chart (it is not section aware and classifies lines by shape) *)
+Theorem C01_read_refuted_foreign_section : wf_read_text w_foreign_section = true /\ disagree w_foreign_section = true.
+Proof. exact read_refuted_foreign_section. Qed.
+Theorem C01_read_refuted_key_without_colon : wf_read_text w_key_without_colon = true /\ osu_read w_key_without_colon = None.
+Proof. exact read_refuted_key_without_colon. Qed.
+Theorem C01_read_refuted_overridden_ill_typed : wf_read_text w_overridden_ill_typed = true /\ osu_read w_overridden_ill_typed = None.
+Proof. exact read_refuted_overridden_ill_typed. Qed.
+Theorem C01_read_refuted_tags_tab : wf_read_text w_tags_tab = true /\ disagree w_tags_tab = true /\
+  option_map (fun c => meta_tags (c_meta c) 21) (osu_read w_tags_tab) = Some [t "a"; []; t "b"].
+Proof. exact read_refuted_tags_tab. Qed.
+Theorem C01_read_refuted_two_bg_markers : wf_read_text w_two_bg_markers = true /\ disagree w_two_bg_markers = true.
+Proof. exact read_refuted_two_bg_markers. Qed.
+Theorem C01_read_refuted_marker_with_colon : wf_read_text w_marker_with_colon = true /\
+  option_map c_bg (osu_read w_marker_with_colon) = Some (t "a.png") /\
+  option_map (fun d => c_bg (realize d)) (osu_denote w_marker_with_colon) = Some [].
+Proof. exact read_refuted_marker_with_colon. Qed.
+Theorem C01_read_refuted_marker_outside_events : wf_read_text w_marker_outside_events = true /\
+  option_map c_bg (osu_read w_marker_outside_events) = Some (t "a.png") /\
+  option_map (fun d => c_bg (realize d)) (osu_denote w_marker_outside_events) = Some [].
+Proof. exact read_refuted_marker_outside_events. Qed.
+Theorem C01_read_refuted_sample_prefix : wf_read_text w_sample_prefix = true /\ disagree w_sample_prefix = true.
+Proof. exact read_refuted_sample_prefix. Qed.
+Theorem C01_read_refuted_sample_bare : wf_read_text w_sample_bare = true /\ osu_read w_sample_bare = None.
+Proof. exact read_refuted_sample_bare. Qed.
+Theorem C01_read_refuted_uninherited_not_literal : wf_read_text w_uninherited_not_literal = true /\
+  disagree w_uninherited_not_literal = true /\
+  option_map (fun c => length (c_bpms c)) (osu_read w_uninherited_not_literal) = Some 0%nat /\
+  option_map (fun d => length (d_bpms d)) (osu_denote w_uninherited_not_literal) = Some 1%nat.
+Proof. exact read_refuted_uninherited_not_literal. Qed.
+Theorem C01_read_refuted_colours_timing_shape : wf_read_text w_colours_timing_shape = true /\
+  disagree w_colours_timing_shape = true.
+Proof. exact read_refuted_colours_timing_shape. Qed.
+
+(* write_wf: the text of the written file is well formed *)
+Theorem C01_osu_write_wf : forall (show_num show_inum : Q -> text) (printable iprintable : Q -> bool),
+  (forall q, printable q = true -> parse_dec (show_num q) = Some (Qred q)) ->
+  (forall q, iprintable q = true -> parse_int (show_inum q) = Some (Qfloor q)) ->
+  forall c ut ua, wdom printable iprintable c ut ua = true ->
+  exists text, written show_num show_inum c ut ua = Some text /\ wf_osu_text text = true.
+Proof. exact osu_write_wf. Qed.
+(* write_denotes: it denotes the chart with note / sample / preview times truncated toward zero, columns exact,
+   every attribute present, no row dropped or merged (rows up to order) *)
+Theorem C01_osu_write_denotes : forall (show_num show_inum : Q -> text) (printable iprintable : Q -> bool),
+  (forall q, printable q = true -> parse_dec (show_num q) = Some (Qred q)) ->
+  (forall q, iprintable q = true -> parse_int (show_inum q) = Some (Qfloor q)) ->
+  forall c ut ua, wdom printable iprintable c ut ua = true ->
+  exists text d, written show_num show_inum c ut ua = Some text /\ osu_denote text = Some d /\
+                 all_present d = true /\ denotes 0 d (written_chart c ut ua) = true /\
+                 write_specb 0 c ut ua text = true.
+Proof. exact osu_write_denotes. Qed.
+(* read after write: the written text is in the domain of the read theorem and is read back as the explicit
+   chart [canon] = the chart written, times truncated, rows in written order, numbers in lowest terms *)
+Theorem C01_osu_read_after_write : forall (show_num show_inum : Q -> text) (printable iprintable : Q -> bool),
+  (forall q, printable q = true -> parse_dec (show_num q) = Some (Qred q)) ->
+  (forall q, iprintable q = true -> parse_int (show_inum q) = Some (Qfloor q)) ->
+  forall c ut ua, wdom printable iprintable c ut ua = true ->
+  exists text, written show_num show_inum c ut ua = Some text /\ read_domain text = true /\
+               osu_read text = Some (canon c ut ua) /\
+               denotes 0 (den_of c ut ua) (written_chart c ut ua) = true /\
+               realize (den_of c ut ua) = canon c ut ua.
+Proof. exact osu_read_after_write. Qed.
+(* no drift: generation 2 denotes the chart generation 1 denotes (rows whose times became equal by truncation
+   may be reordered once: holds before hits) and generation 3 IS generation 2, character for character *)
+Theorem C01_generation_stable : forall (show_num show_inum : Q -> text) (printable iprintable : Q -> bool),
+  (forall q, printable q = true -> parse_dec (show_num q) = Some (Qred q)) ->
+  (forall q, iprintable q = true -> parse_int (show_inum q) = Some (Qfloor q)) ->
+  (forall q q', (q == q')%Q -> printable q = printable q') ->
+  (forall q q', (q == q')%Q -> iprintable q = iprintable q') ->
+  forall c ut ua, wdom printable iprintable c ut ua = true ->
+  exists g1 g2, written show_num show_inum c ut ua = Some g1 /\ regen_with show_num show_inum g1 = Some g2 /\
+                wf_osu_text g2 = true /\ same_denotation 0 g1 g2 = true /\
+                regen_with show_num show_inum g2 = Some g2.
+Proof. exact osu_generation_stable. Qed.
+(* the same four, for the concrete printer "fixed point, 6 decimals" (no hypothesis left) *)
+Theorem C01_osu_write_wf_dec6 : forall c ut ua, wdom6 c ut ua = true ->
+  exists text, written6 c ut ua = Some text /\ wf_osu_text text = true.
+Proof. exact osu_write_wf_dec6. Qed.
+Theorem C01_osu_write_denotes_dec6 : forall c ut ua, wdom6 c ut ua = true ->
+  exists text d, written6 c ut ua = Some text /\ osu_denote text = Some d /\
+                 all_present d = true /\ denotes 0 d (written_chart c ut ua) = true /\ write_specb 0 c ut ua text = true.
+Proof. exact osu_write_denotes_dec6. Qed.
+Theorem C01_osu_read_after_write_dec6 : forall c ut ua, wdom6 c ut ua = true ->
+  exists text, written6 c ut ua = Some text /\ read_domain text = true /\ osu_read text = Some (canon c ut ua) /\
+               denotes 0 (den_of c ut ua) (written_chart c ut ua) = true /\ realize (den_of c ut ua) = canon c ut ua.
+Proof. exact osu_read_after_write_dec6. Qed.
+Theorem C01_generation_stable_dec6 : forall c ut ua, wdom6 c ut ua = true ->
+  exists g1 g2, written6 c ut ua = Some g1 /\ regen6 g1 = Some g2 /\ wf_osu_text g2 = true /\
+                same_denotation 0 g1 g2 = true /\ regen6 g2 = Some g2.
+Proof. exact osu_generation_stable_dec6. Qed.
+(* the refuted corner of the write direction: a transliterated Title with a line feed (unidecode of U+2028) *)
+Theorem C01_write_title_linefeed_refuted :
+  wf_chart linefeed_chart = true /\ kinds_ok key_table (c_meta linefeed_chart) = true /\
+  match written6 linefeed_chart [97; 10; 98] [] with
+  | Some text => write_specb 0 linefeed_chart [97; 10; 98] [] text = false /\
+                 option_map (fun c => meta_str (c_meta c) IX_TITLE) (osu_read text) = Some [97]
+  | None => False
+  end.
+Proof. exact write_title_linefeed_refuted. Qed.
+(* non-vacuity of the domains: a concrete 7K text (hold, SV and tempo point, metadata value with colons,
+   background with a colon, a sample event, [Colours], blank lines) and a concrete 7K chart (fractional and
+   negative times, a hold / hit tie after truncation, decimal attributes, a sample event) *)
+Example C01_example_text_in_domain :
+  read_domain example_text = true /\
+  option_map (fun c => (length (c_hits c), length (c_holds c), length (c_bpms c), length (c_svs c), length (c_samples c),
+                        map n_col (c_hits c ++ c_holds c), meta_str (c_meta c) IX_TITLE))
+             (osu_read example_text)
+  = Some (1%nat, 1%nat, 1%nat, 1%nat, 1%nat, [0; 6], t "Re:Zero - Starting: Life").
+Proof. exact example_text_in_domain. Qed.
+Example C01_example_chart_in_domain :
+  wdom6 example_chart7 (t "Re:Zero ") [] = true /\
+  match written6 example_chart7 (t "Re:Zero ") [] with
+  | Some g1 => write_specb 0 example_chart7 (t "Re:Zero ") [] g1 = true /\ read_domain g1 = true /\
+               match regen6 g1 with
+               | Some g2 => list_eqb text_eqb g1 g2 = false /\ same_denotation 0 g1 g2 = true /\
+                            match regen6 g2 with Some g3 => list_eqb text_eqb g2 g3 = true | None => False end
+               | None => False end
+  | None => False
+  end.
+Proof. exact example_chart_in_domain. Qed.
+(* the witnesses of the refutations are outside the strict layout; the two former defect inputs are inside *)
+Theorem C01_refutation_witnesses_not_strict :
+  forallb (fun w => negb (strict_read_text w))
+    [w_foreign_section; w_key_without_colon; w_overridden_ill_typed; w_tags_tab; w_two_bg_markers; w_marker_with_colon;
+     w_marker_outside_events; w_sample_prefix; w_sample_bare; w_uninherited_not_literal; w_colours_timing_shape] = true.
+Proof. exact refutation_witnesses_not_strict. Qed.
+Theorem C01_corpus_in_domain : read_domain colon_witness = true /\ read_domain xcol_witness = true.
+Proof. exact corpus_in_domain. Qed.
 
 (* ---- table obligations (live interpreter / live reamber functions = the constants the model uses) ---- *)
 Theorem C01_tables_whitespace : Tables.c01.py_space = Text.py_space.
